@@ -22,14 +22,7 @@ theorem spec_layout (f : Fields) (h : f.InWidth) : encodeByLayout f = encodeFiel
   simp only [encodeByLayout, encodeByLayout.go, layout, Fields.get]
   omega
 
-/-- Reading the table backwards (for every word: only its bits 0..24 are read) gives these div/mod expressions. -/
-theorem decodeByLayout_eq (w : Nat) :
-    decodeByLayout w = ⟨w / 4 % 64, w / 8388608 % 2 + 2 * (w / 256 % 256) + 512 * (w % 4), w / 262144 % 32,
-      w / 16777216 % 2 + 2 * (w / 65536 % 4)⟩ := by
-  simp only [decodeByLayout, decodeByLayout.go, layout, Fields.mk.injEq, Nat.reduceAdd, Nat.reducePow]
-  omega
-
-/-- ... so an encoded word has 25 bits and reads back as its fields. -/
+/-- Reading the table backwards recovers the fields of an encoded word, which has 25 bits. -/
 theorem spec_layout_inverse (f : Fields) (h : f.InWidth) :
     decodeByLayout (encodeFields f) = f ∧ encodeFields f < 2 ^ 25 := by
   obtain ⟨e0, e1, e2, e3⟩ := fields_of_encode f h 0
@@ -48,10 +41,6 @@ theorem encode_defined (bsic fn : Nat) :
     by_cases c : bsic < 64 ∧ fn < 26 * 51 * 2048 ∧ isSchFrame fn = true
     · exact c
     · simp only [c, if_false, Option.map_none] at hw; exact absurd hw (by simp)
-
-theorem isSchFrame_iff (fn : Nat) :
-    isSchFrame fn = true ↔ (fn % 51 = 1 ∨ fn % 51 = 11 ∨ fn % 51 = 21 ∨ fn % 51 = 31 ∨ fn % 51 = 41) := by
-  simp only [isSchFrame, Bool.or_eq_true, beq_iff_eq, or_assoc]
 
 /-! ### (a) the two decoders agree on every input -/
 
@@ -176,8 +165,9 @@ theorem t3p_invalid_not_sch (sb : Nat) (h2 : (fwDecodeSb sb).time.t2 < 26) (h3 :
 
 /-! ### (b) the decoders invert the standard's encoder -/
 
-/-- the fields of an SCH frame decode to its GSM time -/
-theorem nfTime_of_frame (fn : Nat) (h : fn < 2715648) (hs : isSchFrame fn = true) (s : Nat)
+/-- The reduced frame number of an SCH frame recomposes to its GSM time: T3 = 10·T3' + 1 on SCH frames, then
+`C19.decomp_recomp` (CRT) and `C19.decomp_components`. -/
+theorem rfn_recomposes (fn : Nat) (h : fn < 2715648) (hs : isSchFrame fn = true) (s : Nat)
     (e1 : fT1 s = fn / 1326) (e2 : fT2 s = fn % 26) (e3 : fT3p s = (fn % 51 - 1) / 10) :
     nfTime s = cFn2GsmTime fn := by
   have hs' := (isSchFrame_iff fn).1 hs
@@ -202,7 +192,7 @@ theorem decode_encode_fw (bsic fn w g : Nat) (h : encodeSb bsic fn = some w) (hg
   rw [h] at e0 e1 e2 e3 hlt
   rw [fw_nf]
   have hw : (w + 2 ^ 25 * g) % 4294967296 = w + 33554432 * g := by omega
-  rw [hw, e0, nfTime_of_frame fn hf hs _ e1 e2 e3]
+  rw [hw, e0, rfn_recomposes fn hf hs _ e1 e2 e3]
 
 /-- an encoded word has 25 bits -/
 theorem encode_lt (bsic fn w : Nat) (h : encodeSb bsic fn = some w) : w < 2 ^ 25 := by
